@@ -15,6 +15,7 @@ Not decided: value equality after a round trip.
 """
 import ast
 import os
+import re
 
 from ppsa import facts, stubs
 from ppsa.astutil import fold, NOFOLD, kwarg, dotted, norm, names_in
@@ -181,6 +182,56 @@ def rule_value_fidelity(ctx):
     ctx.ob(R, f"{IO}::to_dict_of_dfs::switches", not rebound and len(params) >= 2,
            f"include_* parameters {sorted(params)} are not rebound" if not rebound else
            f"{rebound} is overridden inside to_dict_of_dfs: tables the caller asked for are silently left out of the file", fd.loc())
+    rule_precision_and_suffix(ctx)
+
+
+def rule_precision_and_suffix(ctx):
+    R = "VALUE-FIDELITY"
+    m = ctx.repo.module(IO)
+    n = 0
+    for f in m.functions.values():
+        for c in ast.walk(f.node):
+            if isinstance(c, ast.Call) and isinstance(c.func, ast.Attribute) and c.func.attr == "to_json" and \
+                    any(k.arg in ("orient", "default_handler") for k in c.keywords):
+                n += 1
+                dp = next((k.value for k in c.keywords if k.arg == "double_precision"), None)
+                ok = isinstance(dp, ast.Constant) and dp.value == 15
+                ctx.ob(R, f"{IO}::{f.qualname}::double_precision", ok,
+                       "pandas writer called with double_precision=15" if ok else
+                       f"`{norm(c, 90)}` leaves the pandas default of 10 decimals: floats in this object come back with errors up to 1e-10 "
+                       "while tables keep 15 digits", f.loc(c))
+    if n < 2:
+        ctx.fail(f"VALUE-FIDELITY: only {n} pandas to_json calls found (confirmed: DataFrame and Series encoders)")
+    # suffix handling of the table names in the Excel / SQLite reader
+    fr = ctx.repo.func(f"{IO}:from_dict_of_dfs")
+    k = 0
+    for br in ast.walk(fr.node):
+        if not isinstance(br, ast.If):
+            continue
+        mt = re.fullmatch(r"item\.endswith\((['\"])(\w+)\1\)", ast.unparse(br.test))
+        if not mt:
+            continue
+        suffix = mt.group(2)
+        for x in [y for st in br.body for y in ast.walk(st)]:
+            bad = None
+            if isinstance(x, ast.Subscript) and ast.unparse(x.value) == "item" and isinstance(x.slice, ast.Slice) and x.slice.lower is None:
+                k += 1
+                up = x.slice.upper
+                val = -up.operand.value if isinstance(up, ast.UnaryOp) and isinstance(up.op, ast.USub) and isinstance(up.operand, ast.Constant) else None
+                if val != -len(suffix):
+                    bad = f"`{ast.unparse(x)}` cuts {ast.unparse(up) if up is not None else '?'} characters, the suffix '{suffix}' has {len(suffix)}"
+            elif isinstance(x, ast.Call) and isinstance(x.func, ast.Attribute) and ast.unparse(x.func.value) == "item" and \
+                    x.func.attr in ("rstrip", "strip", "lstrip", "removesuffix", "replace", "split", "rsplit", "rpartition"):
+                k += 1
+                if x.func.attr in ("rstrip", "strip", "lstrip"):
+                    bad = f"`{ast.unparse(x)}` strips a SET of characters, not the suffix: a key such as 'load.q_mvar' loses its trailing letters too"
+            else:
+                continue
+            ctx.ob(R, f"{IO}::from_dict_of_dfs::suffix:{suffix}", bad is None,
+                   f"the key is the sheet name without the suffix '{suffix}'" if bad is None else bad +
+                   ": the dictionary key read back differs from the one that was written", fr.loc(x))
+    if k < 1:
+        ctx.fail("from_dict_of_dfs: derivation of the profile key from the sheet name not found")
 
 
 def run(ctx):
@@ -327,6 +378,16 @@ def run(ctx):
         ctx.ob(R4, f"{IO}::from_dict_of_dfs::key:{k}", ok, f"special sheet '{k}' written by to_dict_of_dfs " + ("is handled" if ok else "is not handled") + " by from_dict_of_dfs", ff.loc())
 
 
+def variants_r5(V):
+    io = "pandapower/io_utils.py"
+    return [
+        V("series written with the pandas default precision", io, in_function("json_series", lambda s: s.replace("obj.to_json(orient=orient, default_handler=to_serializable,\n                                        double_precision=15)", "obj.to_json(orient=orient, default_handler=to_serializable)", 1)), "json_series::double_precision"),
+        V("profile key derived with rstrip", io, in_function("from_dict_of_dfs", replace_once('net["profiles"][item[:-9]] = table', 'net["profiles"][item.rstrip("_profiles")] = table')), "suffix:_profiles"),
+        V("profile key cut one short", io, in_function("from_dict_of_dfs", replace_once('net["profiles"][item[:-9]] = table', 'net["profiles"][item[:-8]] = table')), "suffix:_profiles"),
+        V("twin: profile key through removesuffix", io, in_function("from_dict_of_dfs", replace_once('net["profiles"][item[:-9]] = table', 'net["profiles"][item.removesuffix("_profiles")] = table')), None),
+    ]
+
+
 def variants(repo):
     io = "pandapower/io_utils.py"
     fio = "pandapower/file_io.py"
@@ -343,4 +404,4 @@ def variants(repo):
         V("decrypt guard lost", fio, in_function("from_json_string", replace_once("    if encryption_key is not None:\n        json_string = decrypt_string(json_string, encryption_key)\n", "")), "ENCRYPT-PAIR"),
         V("recycle not decoded", io, in_function("from_dict_of_dfs", replace_once('("object", "recycle", "q_max_characteristic", "q_min_characteristic")', '("object", "q_max_characteristic", "q_min_characteristic")')), "column:recycle"),
         V("unknown numpy class", io, replace_once("obj_module='numpy', obj_class='array'", "obj_module='numpy', obj_class='arrayx'"), "SIG-DECODE"),
-    ]
+    ] + variants_r5(Variant)
